@@ -14,6 +14,7 @@ import (
 
 	gonnx "github.com/advancedclimatesystems/gonnx"
 	"github.com/advancedclimatesystems/gonnx/onnx"
+	"github.com/advancedclimatesystems/gonnx/ops"
 
 	"verifsim/rng"
 )
@@ -47,6 +48,21 @@ func raceRunJ(jf *os.File, seed uint64, start, n, step int64, repo string, stop 
 		}
 		r := rng.New(rng.Mix(seed, 0x17, uint64(i)))
 		c := drawWorld17(r, lib)
+		// image-sized inputs are left to the simulation: one convolution over 65 536 elements under the race detector
+		// takes seconds, and this tier has seconds
+		heavy := false
+		for _, t := range c.World.Tasks {
+			for _, cl := range t.Calls {
+				for _, v := range cl.Inputs {
+					if v != nil && len(v.Bits) > 8192 {
+						heavy = true
+					}
+				}
+			}
+		}
+		if heavy {
+			continue
+		}
 		var models []*gonnx.Model
 		okLoad := true
 		shared := map[uint64]*onnx.ModelProto{}
@@ -56,6 +72,10 @@ func raceRunJ(jf *os.File, seed uint64, start, n, step int64, repo string, stop 
 				okLoad = false
 				break
 			}
+			// (a getter of the harness's is installed on every Model the harness uses, here one that only forwards:
+			// a tree may take another code path once Model.GetOperator has been reassigned, and the references do it too)
+			orig := lm.m.GetOperator
+			lm.m.GetOperator = func(opType string) (ops.Operator, error) { return orig(opType) }
 			models = append(models, lm.m)
 		}
 		if !okLoad {
